@@ -9,6 +9,7 @@ package main
 
 import (
 	"fmt"
+	"math/rand"
 	"os"
 	"runtime"
 	"strconv"
@@ -94,6 +95,14 @@ func main() {
 			seed, _ = strconv.ParseInt(v, 0, 64)
 		}
 		os.Exit(selftest.Run(seed, c.Jobs))
+	case "assemble":
+		// development aid: writes assembled specs to a directory
+		n, _ := strconv.Atoi(os.Args[3])
+		_ = os.MkdirAll(os.Args[2], 0o755)
+		for i := 0; i < n; i++ {
+			_ = os.WriteFile(fmt.Sprintf("%s/asm%d.yml", os.Args[2], i), []byte(c10.Assemble(rand.New(rand.NewSource(int64(i)+1)))), 0o644)
+		}
+		os.Exit(0)
 	case "instrument":
 		os.Exit(instrument())
 	case "xbuild":
